@@ -255,13 +255,14 @@ def locate_fn(m, spec):
     return cands[0]
 
 
-def weave_file(file, src, fnspecs, blockitems, canary=False):
+def weave_file(file, src, fnspecs, blockitems, canary=False, degrade=(), extern=()):
     """src: extracted text of one file.  Returns Woven."""
     m = rp.mask(src)
     edits = []
     seq = [0]
     clauses = {}
     contracted = {}
+    skipped = []   # body-level directives that could not be placed (lost anchor) or were dropped on purpose (degrade)
 
     def add(pos, dele, text, origin):
         seq[0] += 1
@@ -348,15 +349,27 @@ def weave_file(file, src, fnspecs, blockitems, canary=False):
                 raise Undecided('%s: body directives on a declaration' % key)
             continue
         lo, hi = f.sig_end + 1, f.body_end
+        if key in extern:
+            ls = m.rfind('\n', 0, f.kw) + 1
+            add(ls, 0, ind + '#[verifier::external_body]\n', ('contract', 'auto', 0, None))
+            skipped.append((key, 'body not verified: Verus rejects a construct in it (external_body fallback)'))
+            continue
+        if key in degrade:
+            skipped.append((key, 'all body-level hints dropped: they no longer type-check against the changed body'))
+            continue
         # loops
         loops = rp.find_loops(m, lo, hi)
         for L in spec.loops:
-            if L['n'] < 1 or L['n'] > len(loops):
-                raise Undecided('anchor: %s has %d loops, @loop %d (%s:%d)' % (key, len(loops), L['n'], spec.vfile, L['vline']))
-            lp = loops[L['n'] - 1]
-            if not lp.header.startswith(' '.join(L['prefix'].split())):
-                raise Undecided('anchor: %s loop %d header %r does not start with %r (%s:%d)' % (
-                    key, L['n'], lp.header[:60], L['prefix'], spec.vfile, L['vline']))
+            if L['n'] < 1 or L['n'] > len(loops) or not loops[L['n'] - 1].header.startswith(' '.join(L['prefix'].split())):
+                # the loop this invariant was written for is gone or moved: try to find it by its header prefix
+                cand = [q for q in loops if q.header.startswith(' '.join(L['prefix'].split()))]
+                if len(cand) == 1:
+                    lp = cand[0]
+                else:
+                    skipped.append((key, 'loop %d %r not found (%s:%d)' % (L['n'], L['prefix'], spec.vfile, L['vline'])))
+                    continue
+            else:
+                lp = loops[L['n'] - 1]
             lind = ' ' * (lp.kw - (m.rfind('\n', 0, lp.kw) + 1))
             if L['iter']:
                 if lp.kind != 'for':
@@ -394,10 +407,12 @@ def weave_file(file, src, fnspecs, blockitems, canary=False):
                     cands.append(cl)
             if C['k'] is not None:
                 if C['k'] > len(cands):
-                    raise Undecided('anchor: %s closure %r #%d not found (%s:%d)' % (key, anchor, C['k'], spec.vfile, C['vline']))
+                    skipped.append((key, 'closure %r #%d not found (%s:%d)' % (anchor, C['k'], spec.vfile, C['vline'])))
+                    continue
                 cands = [cands[C['k'] - 1]]
             if len(cands) != 1:
-                raise Undecided('anchor: %s closure %r matches %d (%s:%d)' % (key, anchor, len(cands), spec.vfile, C['vline']))
+                skipped.append((key, 'closure %r matches %d (%s:%d)' % (anchor, len(cands), spec.vfile, C['vline'])))
+                continue
             cl = cands[0]
             ckey = '%s#closure[%d]' % (key, ci)
             pname = None
@@ -444,13 +459,19 @@ def weave_file(file, src, fnspecs, blockitems, canary=False):
             if ins['where'] == 'bodystart':
                 add(lo, 0, '\n' + text + '\n', ('contract', spec.vfile, ins['vline'], None))
                 continue
-            hits = [(a, z) for a, z in body_lines if src[a:z].strip().startswith(ins['anchor'])]
+            hits = []
+            for alt in ins['anchor'].split(' || '):
+                hits = [(a, z) for a, z in body_lines if src[a:z].strip().startswith(alt)]
+                if hits:
+                    break
             if ins['k'] is not None:
                 if ins['k'] > len(hits):
-                    raise Undecided('anchor: %s line %r #%d not found (%s:%d)' % (key, ins['anchor'], ins['k'], spec.vfile, ins['vline']))
+                    skipped.append((key, 'line %r #%d not found (%s:%d)' % (ins['anchor'], ins['k'], spec.vfile, ins['vline'])))
+                    continue
                 hits = [hits[ins['k'] - 1]]
             if len(hits) != 1:
-                raise Undecided('anchor: %s line %r matches %d (%s:%d)' % (key, ins['anchor'], len(hits), spec.vfile, ins['vline']))
+                skipped.append((key, 'line %r matches %d (%s:%d)' % (ins['anchor'], len(hits), spec.vfile, ins['vline'])))
+                continue
             a, z = hits[0]
             if ins['where'] == 'before':
                 add(a, 0, text + '\n', ('contract', spec.vfile, ins['vline'], None))
@@ -501,6 +522,7 @@ def weave_file(file, src, fnspecs, blockitems, canary=False):
     w = Woven()
     w.clauses = clauses
     w.noterm = w_noterm
+    w.skipped = skipped
     cur = []
     cur_or = []
     out_pos_map = []  # (src_pos, out_line) for source segments -> to map fn ranges
